@@ -160,7 +160,17 @@ func (e *c09ex) Exec(op string) string {
 			return "err"
 		}
 		b := e.a.ExecIDs(id)
-		if b.Resp == nil || b.Resp.TxResponses[0].GetError() != nil {
+		if b.Resp == nil {
+			return "err"
+		}
+		// what the robot is told: the batch reply must announce exactly the swaps that were begun
+		failed := b.Resp.TxResponses[0].GetError() != nil
+		if n := len(b.Resp.GetCreatedMultiSwap()); failed && n != 0 {
+			e.flag("failed_begin_announced", "a multiSwapBegin that failed is listed in CreatedMultiSwap of the batch reply (the robot would answer it on the other channel)")
+		} else if !failed && n != 1 {
+			e.flag("begun_not_announced", fmt.Sprintf("a successful multiSwapBegin is announced %d times in CreatedMultiSwap", n))
+		}
+		if failed {
 			return "err"
 		}
 		return "ok"
